@@ -293,6 +293,21 @@ func (f *Frame) execCall(c *ssa.CallCommon, result ssa.Value, pos token.Pos) EV 
 		vc.used["A-SPI:"+key] = true
 		return f.havocResult(resT, key)
 	}
+	// effect-free standard-library functions (no pointer, map, channel or function argument through which library state
+	// could be reached; no mutator names): arbitrary result, no effect. Listed as assumption A-STD-PURE:<function>.
+	if callee != nil && callee.Blocks == nil && callee.Object() != nil && callee.Object().Pkg() != nil && stdPurePkgs[callee.Object().Pkg().Path()] && !stdMutator(callee.Name()) {
+		ok := true
+		for _, a := range c.Args {
+			switch a.Type().Underlying().(type) {
+			case *types.Pointer, *types.Map, *types.Chan, *types.Signature:
+				ok = false
+			}
+		}
+		if ok {
+			vc.used["A-STD-PURE:"+key] = true
+			return f.havocResult(resT, key)
+		}
+	}
 	vc.errf("%s: call to %s has no contract, model or body (UNDECIDED)", vc.P.fnKey(f.fn), key)
 	// unknown effects: havoc the heap
 	f.havocHeap()
@@ -934,4 +949,16 @@ func (P *Program) implsOf(it *types.Interface, m string) []implInfo {
 	}
 	sort.Slice(out, func(i, j int) bool { return P.fnKey(out[i].fn) < P.fnKey(out[j].fn) })
 	return out
+}
+
+var stdPurePkgs = map[string]bool{"errors": true, "github.com/pkg/errors": true, "fmt": true, "strings": true, "strconv": true, "bytes": true, "unicode": true, "unicode/utf8": true,
+	"math": true, "math/bits": true, "encoding/hex": true, "crypto/sha256": true, "time": true, "path": true, "path/filepath": true}
+
+func stdMutator(name string) bool {
+	for _, p := range []string{"Put", "Read", "Write", "Copy", "Fill", "Sort", "Swap", "Store", "Set", "Reset", "After", "Sleep", "New", "Stop", "Tick"} {
+		if strings.HasPrefix(name, p) {
+			return true
+		}
+	}
+	return false
 }
